@@ -7,6 +7,39 @@ ROOT = os.path.dirname(os.path.abspath(__file__))
 
 # id -> (level, technique, level text, level note, design ref)
 CHECKS = {
+ "C01": ("exploration", "runtime monitoring: offline oracle over recorded In/finalize/send-ack/Commit histories of the real pipeline under -race with seeded schedule perturbation",
+   "Held on K recorded executions of the real pipeline (monitoring plugins only at the plugin boundary): every Commit seen by the input is checked against the recorded output acknowledgements and drops of all earlier events of its source+stream. Sampling of schedules/configurations, so 'held on what was observed'; rare orders are forced by delay plans, hook sleeps and worker counts and their occurrence is measured (completion inversions, discards overtaking in-flight events).",
+   "trusts the monitoring input/output/script plugins and the finalize observer (build tag verif) to record faithfully; an event whose retries were exhausted without dead queue counts as finished", "DESIGN.md §3 C01"),
+ "C02": ("exploration", "runtime monitoring: per-stream commit-order / exactly-once / idle-accounting oracle over recorded histories of the real pipeline under -race",
+   "Held on K recorded executions: per (source, stream) commit offsets strictly increasing in read order, no double commit, and at idle every accepted event has exactly one commit or one silent drop.",
+   "idle = readers finished and pool in-use 0 on three consecutive samples; same trusted base as C01", "DESIGN.md §3 C02"),
+ "C04": ("exploration", "runtime monitoring: gate-directed lost-wake-up schedules on both event pools, pool stress, and bounded-progress (heartbeat-tick) watchdog over real pipelines with hold/join chains",
+   "Liveness restated as bounded progress in logical heartbeat ticks: directed schedules place a reader inside the check-to-wait window of each pool and require a wake-up within 3 pool heartbeat ticks; whole pipelines must finalize every accepted event within a bounded number of streamer heartbeat ticks after the last progress. Unbounded 'eventually' is not decidable by a finite run.",
+   "hook points (pool.*.beforeWait, *.tick) only count/block; outputs of these cases keep acknowledging", "DESIGN.md §3 C04"),
+ "C05": ("exploration", "runtime monitoring: outstanding-set pool monitor (lower bound of in-flight), porcupine linearizability of get/back histories against a counting semaphore, race detector on event memory, leak accounting at idle",
+   "Held on K executions: standalone pools of both kinds under concurrent get/back (capacity 1..8) and the same monitor wrapped around the pool of real pipelines; short histories are checked with porcupine; a race report on event memory counts as double ownership.",
+   "pointer identity identifies an event object; the wrapper delegates unchanged", "DESIGN.md §3 C05"),
+ "C08": ("exploration", "runtime monitoring: recorded Add/send/OutFn/Commit history of the real Batcher judged by an offline oracle (size bounds, tick-based staleness, commit order, exactly-once, Stop races) under -race",
+   "Held on K executions of the real pipeline.Batcher driven through its exported API in child processes: batch size/byte bounds, staleness in heartbeat ticks (plus a wall-clock view that needs 3/3 solo confirmation), whole-batch in-order commits after OutFn returned, exactly-once, and Stop placed by a gate or at a drawn Add.",
+   "hook points batcher.tick/batcher.afterUnlock only count/block", "DESIGN.md §3 C08"),
+ "C11": ("exploration", "runtime monitoring: reference line splitter vs the real http input under exhaustive small-scope chunkings, gzip, large bodies, and concurrent requests under -race",
+   "Exhaustive over a small scope (all bodies over a 3-symbol alphabet up to length 7/9 x all read chunkings x EOF styles) plus seeded large bodies and concurrent requests; the recording controller and response writer share one logical clock.",
+   "the recording controller copies data inside In; gzip writer of the stdlib is trusted", "DESIGN.md §3 C11"),
+ "C12": ("exploration", "runtime monitoring: crash detection in child processes with command log, buffer canaries, and reference parsers for every decoder",
+   "Millions of generated/mutated lines per decoder and parameter set through Decode/DecodeToJson/DecodeCRI/DecodePostgres and Pipeline.In; totality (no crash, canaries intact), fidelity against independent reference parsers, json_max_fields_size postconditions.",
+   "reference parsers written from RFCs/readme; encoding/json is trusted for validity", "DESIGN.md §3 C12"),
+ "C14": ("exploration", "runtime monitoring: naive three-valued reference evaluator vs real do_if checker and real match_fields path in a real pipeline; determinism re-evaluation",
+   "Millions of (rule, event) pairs: decisions of doif.Checker.Check and of the real pipeline's action selection are compared with an evaluator written from the READMEs; pairs the docs leave open are only checked for determinism.",
+   "the README is the specification; Go regexp is shared by both sides", "DESIGN.md §3 C14"),
+ "C16": ("exploration", "runtime monitoring: dictionary reference model vs the real throttle plugin under a virtual clock; safety sums for concurrent runs",
+   "Sequential histories are compared decision by decision with an independent dictionary model, concurrent ones with order-independent sums, and two-action pipelines against the same actions in separate pipelines.",
+   "virtual clock installed through the verif accessor (same hook the package tests use)", "DESIGN.md §3 C16"),
+ "C17": ("exploration", "runtime monitoring: reference rewrite model vs the real mask plugin in a real pipeline, child processes for crash attribution",
+   "Generated regexps/group selections/modes/field lists and events; output document, applied marks and metric counters compared with a model built on Go regexp submatch indexes.",
+   "Go regexp is shared by both sides (the oracle is about the rewrite)", "DESIGN.md §3 C17"),
+ "C18": ("exploration", "runtime monitoring: naive projection/subtraction on an order-preserving JSON tree vs the real keep_fields/remove_fields plugins in a real pipeline",
+   "Hundreds of thousands of (selector set, event) cases through the real config path; content and survivor key order compared separately.",
+   "independent order-preserving JSON parser", "DESIGN.md §3 C18"),
 }
 
 PENDING_REASON = "check not built yet in this round (runtime-monitoring design in DESIGN.md §3); not claimed until its monitor exists and is silent on the unchanged tree"
